@@ -211,5 +211,34 @@ func genImageCase(r *Rng) ImgCase {
 		n = r.Range(2, 3)
 	}
 	c.Archs = append([]string{}, imgArchPool[:n]...)
+	if r.Chance(20) {
+		// both 32-bit arm variants (they share the OCI architecture "arm" and differ only in the variant)
+		c.Archs = []string{"x86_64", "armhf", "armv7", "aarch64"}[:r.Range(3, 4)]
+		if r.Bool() {
+			c.Archs = []string{"armv7", "armhf"}
+		}
+	}
+	if len(c.Archs) >= 2 && r.Chance(60) {
+		// the newest package differs per architecture (different build dates => different per-arch build date epochs)
+		last := &c.Pkgs[len(c.Pkgs)-1]
+		base := *last
+		c.Pkgs = c.Pkgs[:len(c.Pkgs)-1]
+		for i, a := range c.Archs {
+			q := base
+			q.BuildTime = base.BuildTime + int64(86400*(i+1)*(1+r.Intn(3)))
+			q.OnlyArch = []string{a}
+			c.Pkgs = append(c.Pkgs, q)
+		}
+	}
+	if r.Chance(12) {
+		// one file well above the parallel-gzip block size
+		p := &c.Pkgs[0]
+		var b strings.Builder
+		seed := r.Intn(1000)
+		for b.Len() < 3<<20 {
+			fmt.Fprintf(&b, "%d:%d;", seed, b.Len()*7919%104729)
+		}
+		p.Files = append(p.Files, SFile{Path: "usr", Type: "dir", Mode: 0o755}, SFile{Path: "usr/big-" + p.Name, Type: "file", Mode: 0o644, Content: b.String()})
+	}
 	return c
 }
